@@ -107,6 +107,10 @@ pub fn reference_call(world: u8, is_f64: bool, inp: &Input) -> (Res, Counts) {
     (r, c)
 }
 
+fn world_is_lemire(world: usize) -> bool {
+    !worlds::WORLD_NAMES[world].contains("compact")
+}
+
 fn reference_call3(world: u8, is_f64: bool, inp: &Input) -> (Res, Counts, u64) {
     let si = ShapeSpec::slice();
     let bi = Store::build(&inp.int, &si);
@@ -402,6 +406,15 @@ pub fn run_case(case: &ParCase, stats: &mut Stats, miri: bool) -> Result<ParInfo
                     shape::KIND_NAMES[si.kind as usize].min(shape::KIND_NAMES[sf.kind as usize]),
                     worlds::TIER_NAMES[tier as usize]
                 ));
+                if inp.family.starts_with("lemire_inconclusive") {
+                    // the request set was solved from the table (tools/lemire_rare.py): every one of them
+                    // makes the low product word all ones in non-compact builds
+                    stats.inc(if world_is_lemire(world as usize) {
+                        "reach.lemire_low_product_word_all_ones"
+                    } else {
+                        "reach.lemire_inconclusive_request_in_a_bellerophon_build"
+                    });
+                }
                 if inp.family.starts_with("limb_boundary") || inp.family.starts_with("structured") {
                     let fam = inp.family.split('+').next().unwrap_or("");
                     stats.inc(&format!("family.{}.{}", fam, worlds::TIER_NAMES[tier as usize]));
